@@ -26,6 +26,14 @@ func straceUsable() bool {
 type faultCfg struct {
 	Syscalls string `json:"syscalls"`
 	Errno    string `json:"errno"`
+	// Attach: strace is attached to the server once it listens and injects on
+	// every path (no -P), so that the entries the server itself names - the
+	// staging files and directories of PUT, COPY and MOVE next to their
+	// targets - fail too. When: which invocations fail ("" = all, "2+2" =
+	// every second, "3+3" = every third), so that an operation gets past its
+	// first system call and fails at a later one.
+	Attach bool   `json:"attach,omitempty"`
+	When   string `json:"when,omitempty"`
 }
 
 // faultSlice makes the operating system report failure modes the API cannot
@@ -53,12 +61,54 @@ func faultSlice(c *fw.Ctx) {
 			if !c.Mine(idx) {
 				continue
 			}
-			runFaultServer(c, bin, faultCfg{g, e}, idx)
+			runFaultServer(c, bin, faultCfg{Syscalls: g, Errno: e}, idx)
+		}
+	}
+	// the same with strace attached to the running server and no path filter
+	// (the idle server makes none of these calls between requests)
+	agroups := []string{"openat", "mkdirat", "renameat,renameat2", "unlinkat", "fchmodat", "newfstatat", "openat,mkdirat,renameat,renameat2,unlinkat,fchmodat"}
+	whens := []string{"", "2+2", "3+3"}
+	for gi, g := range agroups {
+		for wi, w := range whens {
+			for ei, e := range errnos {
+				// quick tier: one errno per (group, when) pair, rotating
+				if !c.Thorough() && ei != (gi+2*wi+int(c.Seed))%len(errnos) {
+					continue
+				}
+				idx++
+				if !c.Mine(idx) {
+					continue
+				}
+				runFaultServer(c, bin, faultCfg{Syscalls: g, Errno: e, Attach: true, When: w}, idx)
+			}
 		}
 	}
 	if c.Shard == 0 {
-		c.Note("os_fault_slice", fmt.Sprintf("active: %d syscall groups x %d errno values injected by strace into a davserver child", len(groups), len(errnos)))
+		c.Note("os_fault_slice", fmt.Sprintf("active: %d syscall groups x %d errno values injected by strace into a davserver child on the named paths of the tree; %d groups x %d invocation patterns injected on every path by an strace attached to the running server", len(groups), len(errnos), len(agroups), len(whens)))
 	}
+}
+
+// allThreadsTraced: every task of the process has a tracer.
+func allThreadsTraced(pid int) bool {
+	tasks, err := ioutil.ReadDir(fmt.Sprintf("/proc/%d/task", pid))
+	if err != nil || len(tasks) == 0 {
+		return false
+	}
+	for _, t := range tasks {
+		b, err := ioutil.ReadFile(fmt.Sprintf("/proc/%d/task/%s/status", pid, t.Name()))
+		if err != nil {
+			continue // the thread has just ended
+		}
+		i := bytes.Index(b, []byte("TracerPid:"))
+		if i < 0 {
+			return false
+		}
+		f := strings.Fields(string(b[i+len("TracerPid:"):]))
+		if len(f) == 0 || f[0] == "0" {
+			return false
+		}
+	}
+	return true
 }
 
 func runFaultServer(c *fw.Ctx, bin string, cfg faultCfg, idx int) {
@@ -73,16 +123,25 @@ func runFaultServer(c *fw.Ctx, bin string, cfg faultCfg, idx int) {
 		ioutil.WriteFile(filepath.Join(root, "d", "g"), []byte("content of g"), 0644)
 	}
 	rebuild()
-	args := []string{"-f", "-qq", "-o", "/dev/null", "-e", "trace=" + cfg.Syscalls, "-e", "inject=" + cfg.Syscalls + ":error=" + cfg.Errno}
-	for _, p := range []string{"", "f", "d", "d/g", "e", "new", "d/new", "newdir", "d/sub", "newdir/g", "e/f"} {
-		args = append(args, "-P", filepath.Join(root, p))
+	inject := "inject=" + cfg.Syscalls + ":error=" + cfg.Errno
+	if cfg.When != "" {
+		inject += ":when=" + cfg.When
 	}
-	args = append(args, bin, root)
-	cmd := exec.Command("strace", args...)
+	args := []string{"-f", "-qq", "-o", "/dev/null", "-e", "trace=" + cfg.Syscalls, "-e", inject}
+	var cmd *exec.Cmd
+	if cfg.Attach {
+		cmd = exec.Command(bin, root)
+	} else {
+		for _, p := range []string{"", "f", "d", "d/g", "e", "new", "d/new", "newdir", "d/sub", "newdir/g", "e/f"} {
+			args = append(args, "-P", filepath.Join(root, p))
+		}
+		args = append(args, bin, root)
+		cmd = exec.Command("strace", args...)
+	}
 	cmd.Dir = "/"
 	out, _ := cmd.StdoutPipe()
 	if err := cmd.Start(); err != nil {
-		c.Inconclusive("fault slice: cannot start strace: " + err.Error())
+		c.Inconclusive("fault slice: cannot start the server: " + err.Error())
 		return
 	}
 	exited := make(chan struct{})
@@ -115,15 +174,55 @@ func runFaultServer(c *fw.Ctx, bin string, cfg faultCfg, idx int) {
 		c.Observe("os_fault_slice", "server-did-not-start "+cfg.Syscalls+"/"+cfg.Errno, 1)
 		return
 	}
-	type rq struct{ m, p, dest, depth string }
+	if cfg.Attach {
+		tracer := exec.Command("strace", append(args, "-p", fmt.Sprint(cmd.Process.Pid))...)
+		tracer.Dir = "/"
+		if err := tracer.Start(); err != nil {
+			c.Inconclusive("fault slice: cannot start strace: " + err.Error())
+			return
+		}
+		tdone := make(chan struct{})
+		go func() { tracer.Wait(); close(tdone) }()
+		defer func() {
+			select {
+			case <-tdone:
+			default:
+				tracer.Process.Kill()
+				<-tdone
+			}
+		}()
+		// wait until every thread of the server is traced (synchronisation
+		// only; nothing is judged by time)
+		attached := false
+		for i := 0; i < 600 && !attached; i++ {
+			select {
+			case <-tdone:
+				i = 600
+				continue
+			default:
+			}
+			if allThreadsTraced(cmd.Process.Pid) {
+				attached = true
+				break
+			}
+			time.Sleep(50 * time.Millisecond)
+		}
+		if !attached {
+			c.Observe("os_fault_slice", "strace-did-not-attach "+cfg.Syscalls+"/"+cfg.Errno, 1)
+			return
+		}
+		c.Observe("os_fault_slice", "servers with strace attached (faults on every path)", 1)
+	}
+	type rq struct{ m, p, dest, depth, ow string }
 	reqs := []rq{
-		{"OPTIONS", "/f", "", ""}, {"GET", "/f", "", ""}, {"HEAD", "/f", "", ""}, {"GET", "/d/g", "", ""},
-		{"PUT", "/f", "", ""}, {"PUT", "/new", "", ""}, {"PUT", "/d/new", "", ""},
-		{"DELETE", "/f", "", ""}, {"DELETE", "/d", "", ""}, {"DELETE", "/e", "", ""},
-		{"MKCOL", "/newdir", "", ""}, {"MKCOL", "/d/sub", "", ""}, {"MKCOL", "/d", "", ""},
-		{"PROPFIND", "/", "", "1"}, {"PROPFIND", "/d", "", "infinity"}, {"PROPFIND", "/f", "", "0"}, {"PROPFIND", "/", "", "infinity"},
-		{"COPY", "/f", "/new", ""}, {"COPY", "/d", "/newdir", ""}, {"COPY", "/f", "/d/g", ""}, {"COPY", "/d", "/e", ""},
-		{"MOVE", "/f", "/new", ""}, {"MOVE", "/d", "/newdir", ""}, {"MOVE", "/f", "/d/g", ""}, {"MOVE", "/f", "/e/f", ""},
+		{"OPTIONS", "/f", "", "", ""}, {"GET", "/f", "", "", ""}, {"HEAD", "/f", "", "", ""}, {"GET", "/d/g", "", "", ""},
+		{"PUT", "/f", "", "", ""}, {"PUT", "/new", "", "", ""}, {"PUT", "/d/new", "", "", ""},
+		{"DELETE", "/f", "", "", ""}, {"DELETE", "/d", "", "", ""}, {"DELETE", "/e", "", "", ""},
+		{"MKCOL", "/newdir", "", "", ""}, {"MKCOL", "/d/sub", "", "", ""}, {"MKCOL", "/d", "", "", ""},
+		{"PROPFIND", "/", "", "1", ""}, {"PROPFIND", "/d", "", "infinity", ""}, {"PROPFIND", "/f", "", "0", ""}, {"PROPFIND", "/", "", "infinity", ""},
+		{"COPY", "/f", "/new", "", ""}, {"COPY", "/d", "/newdir", "", ""}, {"COPY", "/f", "/d/g", "", ""}, {"COPY", "/d", "/e", "", ""},
+		{"MOVE", "/f", "/new", "", ""}, {"MOVE", "/d", "/newdir", "", ""}, {"MOVE", "/f", "/d/g", "", ""}, {"MOVE", "/f", "/e/f", "", ""},
+		{"MOVE", "/d", "/e", "", ""}, {"COPY", "/d", "/e", "0", "T"}, {"COPY", "/f", "/d/g", "", "F"}, {"MOVE", "/f", "/new", "", "F"}, {"MOVE", "/d", "/f", "infinity", "T"},
 	}
 	needles := []string{root, base}
 	hc := &http.Client{Timeout: 60 * time.Second}
@@ -142,6 +241,9 @@ func runFaultServer(c *fw.Ctx, bin string, cfg faultCfg, idx int) {
 		}
 		if r.depth != "" {
 			req.Header.Set("Depth", r.depth)
+		}
+		if r.ow != "" {
+			req.Header.Set("Overwrite", r.ow)
 		}
 		c.Journal(map[string]interface{}{"fault": cfg, "request": r.m + " " + r.p})
 		resp, err := hc.Do(req)
